@@ -21,7 +21,7 @@ Where the full statement is false of the code as it is, it is kept as a `def …
 Prop`, with the strongest `_partial` theorem (explicit side conditions) and a
 `_counterexample` from a concrete witness.  Helper lemmas live in
 CtyModel/Lemmas/{CoversBasic,CoversWeaken,OpsLogic,OpsCompare,OpsArith,OpsColl,
-OpsEquals,OpsIncludes,OpsAddSub,OpsDerived,OpsSets,OpsMul,OpsKnown,d01Ext,d01Round,d01Arith,d01Range,d01Mul,d01Side,d01Has}.lean.
+OpsEquals,OpsIncludes,OpsAddSub,OpsDerived,OpsSets,OpsMul,OpsKnown,d01Ext,d01Round,d01Arith,d01Range,d01Mul,d01Side,d01Has,d01Len}.lean.
 -/
 import CtyModel.Lemmas.OpsEquals
 import CtyModel.Lemmas.OpsIncludes
@@ -32,6 +32,7 @@ import CtyModel.Lemmas.OpsMul
 import CtyModel.Lemmas.d01Mul
 import CtyModel.Lemmas.d01Side
 import CtyModel.Lemmas.d01Has
+import CtyModel.Lemmas.d01Len
 namespace CtyModel
 namespace C01
 open Value
@@ -246,12 +247,16 @@ theorem length_unknown_object_regression :
     Value.length ⟨.object ["a"] [.string] [false], .unk (.nullable .f)⟩ = .ok (intVal 1) :=
   ⟨by rfl, by rfl, by rfl⟩
 
-/-- Lists, maps, tuples and objects (sets are the frontier): the length of a
-weakened operand is the concrete length, or a range from its length refinement
-that holds it.  `hwdyn`: an operand of the placeholder type is unknown
-(`DynamicVal`), not the null of that type. -/
+/-- Lists, maps, tuples, objects and sets: the length of a weakened operand is the
+concrete length, or a range from its length refinement — or, for a set holding
+unknowns, the range `[1, number of members]` — that holds it.  `hwdyn`: an operand of
+the placeholder type is unknown (`DynamicVal`), not the null of that type.
+`SetCountOK` (decidable, `true` for everything but sets): a weakened set ALL of whose
+members are wholly known has as many members as the set it stands for — the one fact
+about sets that `CoversX` (several members may stand for one) does not give, true of
+every set cty builds (no two equivalent members, property C06). -/
 theorem sound_length_partial (o w r : Value) (hk : o.whollyKnown = true) (hfo : o.wfc = true) (hfw : w.wfc = true)
-    (hwdyn : w.ty = .dyn → w.isKnown = false) (hset : ∀ e, o.ty ≠ .set e)
+    (hwdyn : w.ty = .dyn → w.isKnown = false) (hcount : SetCountOK w.unmark o.unmark = true)
     (hc : CoversX w o = true) (ho : Value.length o = .ok r) :
     ∃ r', Value.length w = .ok r' ∧ Covers r' r = true := by
   unfold Value.length at ho ⊢
@@ -265,12 +270,31 @@ theorem sound_length_partial (o w r : Value) (hk : o.whollyKnown = true) (hfo : 
     cases p <;> try (simp_all [Value.unmark, Payload.unmark1, Value.isKnown, Payload.isKnown, Value.isMarked, Payload.isMarked]; done)
     rename_i ms q
     cases q <;> simp_all [Value.unmark, Payload.unmark1, Value.isKnown, Payload.isKnown, Value.isMarked, Payload.isMarked]
-  obtain ⟨r', h1, h2⟩ := lengthU_sound_partial o.unmark w.unmark r0 (by rw [whollyKnown_unmark]; exact hk)
-    (flat_unmark (wfc_flat hfo)) (flat_unmark (wfc_flat hfw)) (wfc_unmark hfo)
-    (by rw [coversX_unmark_left, coversX_unmark_right]; exact hc) hwk hset h0
+  have hcx : CoversX w.unmark o.unmark = true := by rw [coversX_unmark_left, coversX_unmark_right]; exact hc
+  have hko : o.unmark.whollyKnown = true := by rw [whollyKnown_unmark]; exact hk
+  obtain ⟨r', h1, h2⟩ : ∃ r', lengthU w.unmark = .ok r' ∧ Covers r' r0 = true := by
+    by_cases hs : ∃ e, o.unmark.ty = .set e
+    · obtain ⟨e, he⟩ := hs
+      exact lengthU_sound_set o.unmark w.unmark r0 he hko (flat_unmark (wfc_flat hfo)) (flat_unmark (wfc_flat hfw))
+        (wfc_unmark hfo) hcx hwk hcount h0
+    · exact lengthU_sound_partial o.unmark w.unmark r0 hko
+        (flat_unmark (wfc_flat hfo)) (flat_unmark (wfc_flat hfw)) (wfc_unmark hfo) hcx hwk (fun e h => hs ⟨e, h⟩) h0
   refine ⟨_, by rw [h1]; rfl, ?_⟩
   by_cases ha : o.isMarked = true <;> by_cases hb : w.isMarked = true <;>
     simp [ha, hb, covers_withMarks_left, covers_withMarks_right, h2]
+
+/-- sets: `{1, 2}` as `{unknown ≥ 1, 2}` has a length in `[1, 2]`; as an unknown set of
+1 to 3 members a length in `[1, 3]`; both admit 2 -/
+theorem length_set_examples :
+    Value.length ⟨.set .number, .sset [1, 2] [.n (Num.ofInt 1), .n (Num.ofInt 2)]⟩ = .ok (intVal 2) ∧
+    Value.length ⟨.set .number, .sset [0, 2] [.unk (.num .f (some ⟨Num.ofInt 1, true⟩) none), .n (Num.ofInt 2)]⟩
+      = .ok ⟨.number, .unk (.num .f (some ⟨Num.ofInt 1, true⟩) (some ⟨Num.ofInt 2, true⟩))⟩ ∧
+    CoversX ⟨.set .number, .sset [0, 2] [.unk (.num .f (some ⟨Num.ofInt 1, true⟩) none), .n (Num.ofInt 2)]⟩
+      ⟨.set .number, .sset [1, 2] [.n (Num.ofInt 1), .n (Num.ofInt 2)]⟩ = true ∧
+    SetCountOK ⟨.set .number, .sset [0, 2] [.unk (.num .f (some ⟨Num.ofInt 1, true⟩) none), .n (Num.ofInt 2)]⟩
+      ⟨.set .number, .sset [1, 2] [.n (Num.ofInt 1), .n (Num.ofInt 2)]⟩ = true ∧
+    Covers ⟨.number, .unk (.num .f (some ⟨Num.ofInt 1, true⟩) (some ⟨Num.ofInt 2, true⟩))⟩ (intVal 2) = true :=
+  ⟨by rfl, by rfl, by decide, by decide, by decide⟩
 
 /-! ## Soundness: Equals -/
 
